@@ -67,6 +67,7 @@ type FuncContract struct {
 	Havoc     []string // havoc_at(callee) entries
 	Ghost     []string
 	Assumes   []Clause // explicit assumptions at entry (listed in evidence)
+	Extern    bool     // contract of a function outside the repository
 	Line      int
 }
 
@@ -112,7 +113,7 @@ var clauseKeywords = map[string]bool{
 	"requires": true, "ensures": true, "assigns": true, "invariant": true, "decreases": true, "mode": true,
 	"pure": true, "trusted": true, "guarded_by": true, "holds": true, "holds_r": true, "may_panic": true,
 	"use": true, "havoc_at": true, "ghost": true, "assume": true, "unroll": true, "vars": true, "hyp": true, "concl": true,
-	"nosafety": true, "call": true,
+	"nosafety": true, "call": true, "extern": true,
 }
 
 var reBlock = regexp.MustCompile(`(?s)/\*@(.*?)@\*/`)
@@ -249,6 +250,38 @@ func (cs *ContractSet) parseFile(path, pkgPath string) error {
 		for _, rc := range clauses {
 			fail := func(err error) error { return fmt.Errorf("%s:%d: %v", path, rc.line, err) }
 			switch rc.kw {
+			case "extern":
+				// extern func pkg.F(params) (results)  /  extern func (z *pkg.T) M(params) (results)
+				// contract of a function outside the repository (no body: trusted by nature, listed as assumption)
+				reset()
+				t := strings.TrimSpace(strings.TrimPrefix(strings.TrimSpace(rc.text), "func"))
+				var key string
+				if strings.HasPrefix(t, "(") {
+					fc, err := parseFuncHeader(t)
+					if err != nil {
+						return fail(err)
+					}
+					key = "extern#" + fc.RecvType + "." + fc.Name // e.g. big.Int.SetString
+					fc.IsIface = false
+					fc.File, fc.PkgPath, fc.Line, fc.Trusted, fc.Extern = path, pkgPath, rc.line, true, true
+					cs.Funcs[key] = fc
+					curF = fc
+					break
+				}
+				dot := strings.Index(t, ".")
+				paren := strings.Index(t, "(")
+				if dot < 0 || paren < 0 || dot > paren {
+					return fail(fmt.Errorf("extern func needs a package-qualified name"))
+				}
+				pkgName := t[:dot]
+				fc, err := parseFuncHeader(t[dot+1:])
+				if err != nil {
+					return fail(err)
+				}
+				key = "extern#" + pkgName + "." + fc.Name
+				fc.File, fc.PkgPath, fc.Line, fc.Trusted, fc.Extern = path, pkgPath, rc.line, true, true
+				cs.Funcs[key] = fc
+				curF = fc
 			case "func":
 				reset()
 				fc, err := parseFuncHeader(rc.text)
